@@ -76,18 +76,29 @@ def match_angle(toks, i):
 
 
 def split_commas(toks):
-    """split a token list at top-level commas (depth w.r.t. ( { [ and template < >)"""
-    parts, cur, d, a = [], [], 0, 0
-    for k, t in enumerate(toks):
+    """split a token list at top-level commas (depth w.r.t. ( { [ and the template argument lists < > that
+    follow a block method / Eigen type / *Impl class name)"""
+    parts, cur, d = [], [], 0
+    k = 0
+    while k < len(toks):
+        t = toks[k]
+        if t == ('op', '<') and k > 0 and toks[k - 1][0] == 'id' and (
+                toks[k - 1][1] in BLOCK_METHODS_T or toks[k - 1][1] in TEMPLATE_TYPES
+                or toks[k - 1][1].endswith('Impl') or toks[k - 1][1] == 'array'):
+            e = match_angle(toks, k)
+            cur += toks[k:e + 1]
+            k = e + 1
+            continue
         if t[0] == 'op' and t[1] in '({[':
             d += 1
         elif t[0] == 'op' and t[1] in ')}]':
             d -= 1
-        if t == ('op', ',') and d == 0 and a == 0:
+        if t == ('op', ',') and d == 0:
             parts.append(cur)
             cur = []
         else:
             cur.append(t)
+        k += 1
     if cur:
         parts.append(cur)
     return parts
@@ -103,6 +114,7 @@ class Cls:
     def __init__(self, name, key):
         self.name, self.key = name, key      # C++ class name, Lean namespace
         self.consts = {}                     # RepSize, Dim, Dof (ints or Sym)
+        self.bools = {}                      # IsCommutative
         self.funcs = {}                      # name -> Func (insertion order = source order)
 
 
@@ -149,6 +161,10 @@ def parse_class(src, cname, key, const_eval):
                 raise TrErr(f'{cname}: unsupported constant declaration: ' + show(decl))
             if decl[0][1] == 'int':
                 C.consts[decl[1][1]] = const_eval(decl[3:], C.consts)
+            else:
+                if decl[3:] not in ([('id', 'true')], [('id', 'false')]):
+                    raise TrErr(f'{cname}: unsupported boolean constant: ' + show(decl))
+                C.bools[decl[1][1]] = decl[3][1] == 'true'
             i = j + 1
             continue
         if t == ('id', 'static'):
